@@ -134,6 +134,32 @@ impl SparqlValue {
         }
     }
 
+    /// The class of this value for ORDER BY:
+    /// values of the same non-zero class are totally ordered by [`order_cmp`](Self::order_cmp);
+    /// class 0 contains the values that can not be compared with `<` (NaN, ill-formed literals).
+    pub fn order_class(&self) -> u8 {
+        use SparqlValue::*;
+        match self {
+            Number(n) if !n.is_nan() => 1,
+            String(_, None) => 2,
+            String(_, Some(_)) => 3,
+            Boolean(Some(_)) => 4,
+            DateTime(Some(_)) => 5,
+            _ => 0,
+        }
+    }
+
+    /// Total preorder on the values of one non-zero [`order_class`](Self::order_class),
+    /// consistent with `partial_cmp` wherever the latter is defined.
+    pub fn order_cmp(&self, other: &Self) -> Ordering {
+        use SparqlValue::*;
+        match (self, other) {
+            (Number(n1), Number(n2)) => n1.total_cmp(n2),
+            (DateTime(Some(d1)), DateTime(Some(d2))) => d1.total_cmp(d2),
+            _ => self.partial_cmp(other).unwrap_or(Ordering::Equal),
+        }
+    }
+
     pub fn lexical_form<F>(&self, mut factory: F) -> Arc<str>
     where
         F: FnMut(&str) -> Arc<str>,
